@@ -100,7 +100,7 @@ def match_finding(info, sc, findings):
             continue
         if f.get("algo") and f["algo"] != info["algo"] and f["algo"] != info["algo"].split(":")[0]:
             continue
-        if f.get("site") and f["site"] != info.get("site"):
+        if f.get("site") and not (info.get("site") or "").startswith(f["site"]):
             continue
         if where_holds(f.get("where"), sc):
             return f
